@@ -3,6 +3,7 @@
   a concrete member walk (two entries, one nested instance each) and a concrete run `Seg`.
 -/
 import Qfx.Lemmas.CodecDictSegs
+import Qfx.Lemmas.CodecDictStack
 namespace Qfx
 open Qfx.Spec
 
@@ -72,5 +73,65 @@ theorem exSegOK : SegOK exD [68]
   z := exPlain 58 [120] (by simp [SOH]) (by simp [inInt64]) (by decide) (by decide) (by decide) (by decide) (exNG 58 (by decide))
   zh := by simp [isHeaderField, exD, Tag.isHeader, staticHeaderTags, TagValue.init]
   zt := by simp [isTrailerField, exD, Tag.isTrailer, staticTrailerTags, TagValue.init]
+
+
+/-! ### three nesting levels (`WalkN`, `SegOKN`) -/
+
+/-- three levels: 453 { 448, 447, 802 { 523, 803, 2376 { 2377 } } } -/
+def exCNN : List DNode := [.mk 2377 []]
+def exCN3 : List DNode := [.mk 523 [], .mk 803 [], .mk 2376 exCNN]
+def exC3 : List DNode := [.mk 448 [], .mk 447 [], .mk 802 exCN3]
+def exFs3 : List DNode := [.mk 11 [], .mk 453 exC3, .mk 58 []]
+def exD3 : Dicts := { transport := none, app := some [([68], exFs3)] }
+
+theorem exApp3 : AppMsg exD3 [68] exFs3 := ⟨_, rfl, by simp [alFindB]⟩
+
+theorem exNG3 (t : Tag) (h : t ≠ 453) : NoGroupTag exD3 t := by
+  intro msgs hm p hp
+  simp only [exD3, Option.some.injEq] at hm; subst hm
+  simp only [List.mem_singleton] at hp; subst hp
+  have h' : ¬ (453 : Int) = t := fun e => h e.symm
+  simp only [pathWalk, dfind, DNode.tag, DNode.children, exFs3, h', if_false]
+  by_cases h58 : (58 : Int) = t
+  · simp [h58]
+  · by_cases h11 : (11 : Int) = t
+    · simp [h58, h11]
+    · simp [h58, h11]
+
+/-- members: 448=a 802=1 523=x 2376=1 2377=q | 448=b (pop two levels) 802=1 523=y -/
+theorem exWalkN : WalkN exD3 [(453, exC3)]
+    [TagValue.init 448 [97], TagValue.init 802 [49], TagValue.init 523 [120], TagValue.init 2376 [49], TagValue.init 2377 [113],
+     TagValue.init 448 [98], TagValue.init 802 [49], TagValue.init 523 [121]] [(453, exC3), (802, exCN3)] := by
+  refine .step (st1 := [(453, exC3)]) (exWire _ _ (by simp [SOH]) (by simp [inInt64])) (fun h => by simp [lastGf, isGroupMember, exC3, DNode.tag, TagValue.init] at h) (by rfl) ?_
+  refine .step (st1 := [(453, exC3), (802, exCN3)]) (exWire _ _ (by simp [SOH]) (by simp [inInt64])) (fun h => by simp [lastGf, isGroupMember, exC3, DNode.tag, TagValue.init] at h) (by rfl) ?_
+  refine .step (st1 := [(453, exC3), (802, exCN3)]) (exWire _ _ (by simp [SOH]) (by simp [inInt64])) (fun h => by simp [lastGf, isGroupMember, exCN3, DNode.tag, TagValue.init] at h) (by rfl) ?_
+  refine .step (st1 := [(453, exC3), (802, exCN3), (2376, exCNN)]) (exWire _ _ (by simp [SOH]) (by simp [inInt64])) (fun h => by simp [lastGf, isGroupMember, exCN3, DNode.tag, TagValue.init] at h) (by rfl) ?_
+  refine .step (st1 := [(453, exC3), (802, exCN3), (2376, exCNN)]) (exWire _ _ (by simp [SOH]) (by simp [inInt64])) (fun h => by simp [lastGf, isGroupMember, exCNN, DNode.tag, TagValue.init] at h) (by rfl) ?_
+  refine .step (st1 := [(453, exC3)]) (exWire _ _ (by simp [SOH]) (by simp [inInt64]))
+    (fun _ => ⟨by simp [isHeaderField, exD3, Tag.isHeader, staticHeaderTags, TagValue.init], by simp [isTrailerField, exD3, Tag.isTrailer, staticTrailerTags, TagValue.init], exNG3 _ (by simp [TagValue.init])⟩) (by rfl) ?_
+  refine .step (st1 := [(453, exC3), (802, exCN3)]) (exWire _ _ (by simp [SOH]) (by simp [inInt64])) (fun h => by simp [lastGf, isGroupMember, exC3, DNode.tag, TagValue.init] at h) (by rfl) ?_
+  refine .step (st1 := [(453, exC3), (802, exCN3)]) (exWire _ _ (by simp [SOH]) (by simp [inInt64])) (fun h => by simp [lastGf, isGroupMember, exCN3, DNode.tag, TagValue.init] at h) (by rfl) ?_
+  exact .nil _
+
+
+theorem exPlain3 (t : Tag) (v : Bytes) (hv : ∀ c ∈ v, c ≠ SOH) (ht : inInt64 t) (h10 : t ≠ 10) (h212 : t ≠ 212) (h9 : t ≠ 9) (h35 : t ≠ 35)
+    (hng : NoGroupTag exD3 t) : PlainFields exD3 [TagValue.init t v] := by
+  intro tv htv
+  simp only [List.mem_singleton] at htv; subst htv
+  exact ⟨exWire t v hv ht, h10, h212, h9, h35, hng⟩
+
+/-- a run with the three-level walk above: `11=a, 453=2, <members>, 58=x` -/
+theorem exSegOKN : SegOKN exD3 [68] exFs3
+    ⟨[TagValue.init 11 [97]], TagValue.init 453 [50],
+     [TagValue.init 448 [97], TagValue.init 802 [49], TagValue.init 523 [120], TagValue.init 2376 [49], TagValue.init 2377 [113],
+      TagValue.init 448 [98], TagValue.init 802 [49], TagValue.init 523 [121]], TagValue.init 58 [120]⟩ where
+  pre := exPlain3 11 [97] (by simp [SOH]) (by simp [inInt64]) (by decide) (by decide) (by decide) (by decide) (exNG3 11 (by decide))
+  grp := ⟨exC3, [(453, exC3), (802, exCN3)], by rfl, exWalkN, by rfl⟩
+  wg0 := exWire _ _ (by simp [SOH]) (by simp [inInt64])
+  gh := by simp [isHeaderField, exD3, Tag.isHeader, staticHeaderTags, TagValue.init]
+  gt := by simp [isTrailerField, exD3, Tag.isTrailer, staticTrailerTags, TagValue.init]
+  z := exPlain3 58 [120] (by simp [SOH]) (by simp [inInt64]) (by decide) (by decide) (by decide) (by decide) (exNG3 58 (by decide))
+  zh := by simp [isHeaderField, exD3, Tag.isHeader, staticHeaderTags, TagValue.init]
+  zt := by simp [isTrailerField, exD3, Tag.isTrailer, staticTrailerTags, TagValue.init]
 
 end Qfx
